@@ -66,6 +66,9 @@ def kv(tokens):
     for t in tokens:
         if "=" in t:
             k, v = t.split("=", 1)
+            if k in ("xh", "dh", "h"):       # 16-digit hex hashes: an all-decimal one must stay a string
+                d[k] = v
+                continue
             try:
                 d[k] = int(v)
             except ValueError:
